@@ -1,7 +1,7 @@
 (* C13 - Tags on the wire are exactly the type's tags.
    Only statements closed by [exact]; proofs live in Proofs/. *)
 From PV Require Import Base.Bytes Model.Tag Model.Types Model.TableTypes Model.Enc Model.Dec Gen.Tables
-     Proofs.TagOctets Proofs.TagAlgebra Proofs.Spine Proofs.TagsetShape Proofs.RoundTrip1.
+     Model.Obs Proofs.TagOctets Proofs.TagAlgebra Proofs.Spine Proofs.TagsetShape Proofs.DecFrame Proofs.RoundTrip1 Proofs.TagReject.
 Local Open Scope N_scope.
 
 (* identifier octets round trip for every class, form and number (no bound on the number) *)
@@ -65,3 +65,51 @@ Theorem C13_accepts_own_stage1 : forall ce cd T v b tl,
   exists v', decode cd (Some T) (b ++ tl) = Ok (DV T v', tl) /\ abs T v' = abs T v.
 Proof. exact roundtrip_stage1. Qed.
 Print Assumptions C13_accepts_own_stage1.
+
+(* "decoding with a type whose tags differ in class or number at any level rejects it", for every
+   input: T any simple type under any stack of taggings, any value the encoder accepts, T' any
+   simple type under any taggings whose tag set has the same number of tags and differs somewhere in
+   class or number (or has more tags); every decoder refuses with a library error, whatever follows *)
+Theorem C13_mismatch_rejected_stage1 : forall ce cd T T' v b tl,
+  enc_ok ce -> wf_tags T = true -> wf_tags T' = true -> prim_base T = true -> prim_base T' = true ->
+  stage1_val ce cd T v = true -> encode ce true 0 T v = Ok b -> N.of_nat (length b) <= index_max ->
+  tags_differ (tagset_of' T) (tagset_of' T') = true ->
+  exists e, decode cd (Some T') (b ++ tl) = Err e /\ is_library e = true.
+Proof. exact tag_mismatch_rejected_stage1. Qed.
+Print Assumptions C13_mismatch_rejected_stage1.
+
+(* tags_differ covers exactly what the property names: same number of tags and a difference, or more tags *)
+Theorem C13_tags_differ_same_length : forall ts ts', length ts = length ts' ->
+  tagset_eqb ts ts' = false -> tags_differ ts ts' = true.
+Proof. exact tags_differ_same_length. Qed.
+Print Assumptions C13_tags_differ_same_length.
+Theorem C13_tags_differ_longer : forall ts ts', (length ts < length ts')%nat -> tags_differ ts ts' = true.
+Proof. exact tags_differ_longer. Qed.
+Print Assumptions C13_tags_differ_longer.
+
+(* with a scalar guiding type (BOOLEAN INTEGER ENUMERATED NULL OID REAL), or with the DER decoder and any
+   simple guiding type, ANY difference of the tag sets is refused *)
+Theorem C13_mismatch_rejected_scalar : forall ce cd T T' v b tl,
+  enc_ok ce -> wf_tags T = true -> prim_base T = true -> scalar_base T' = true ->
+  encode ce true 0 T v = Ok b ->
+  tagset_eqb (tagset_of' T) (tagset_of' T') = false ->
+  decode cd (Some T') (b ++ tl) = Err EMalformed.
+Proof. exact tag_mismatch_rejected_scalar. Qed.
+Print Assumptions C13_mismatch_rejected_scalar.
+Theorem C13_mismatch_rejected_der : forall ce T T' v b tl,
+  enc_ok ce -> wf_tags T = true -> prim_base T = true -> prim_base T' = true ->
+  encode ce true 0 T v = Ok b ->
+  tagset_eqb (tagset_of' T) (tagset_of' T') = false ->
+  decode DER (Some T') (b ++ tl) = Err EMalformed.
+Proof. exact tag_mismatch_rejected_der. Qed.
+Print Assumptions C13_mismatch_rejected_der.
+
+(* The case the condition leaves out is genuinely ambiguous in BER: a0 04 04 02 07 08 is both
+   [0] EXPLICIT OCTET STRING (primitive inside) and [0] IMPLICIT OCTET STRING in constructed form
+   with one segment; the BER and CER decoders accept it under either type, DER refuses the second *)
+Example C13_ambiguous_encoding_witness :
+  encode BER true 0 (TExp (mkTag Ctx false 0) TOcts) (VOcts [7; 8]) = Ok [160; 4; 4; 2; 7; 8]
+  /\ decode BER (Some (TImp (mkTag Ctx false 0) TOcts)) [160; 4; 4; 2; 7; 8]
+     = Ok (DV (TImp (mkTag Ctx false 0) TOcts) (VOcts [7; 8]), [])
+  /\ decode DER (Some (TImp (mkTag Ctx false 0) TOcts)) [160; 4; 4; 2; 7; 8] = Err EMalformed.
+Proof. vm_compute. repeat split. Qed.
